@@ -167,7 +167,11 @@ fn alpha_medium(cfg: &Cfg) -> Vec<Op> {
     }
     v.push(c(Hts));
     v.push(c(Tbc(None)));
+    v.push(c(Tbc(Some(3))));
     v.push(c(Ris));
+    // a width change that brings new default stops with it
+    v.push(Op::resize(cfg.cols + 8, cfg.rows));
+    v.push(Op::resize(cfg.cols + 17, cfg.rows));
     v
 }
 
@@ -206,6 +210,18 @@ fn alpha_sweep(cfg: &Cfg) -> Vec<Op> {
         }
     }
     v.push(c(Tbc(Some(3))));
+    // the addressable rows after a RESTORE changed origin mode (saved in one mode, restored
+    // from the other), for every way of saving - the functions above then address every cell
+    let rows = cfg.rows as u32;
+    for (a, b) in [(None, None), (Some(3), Some(rows - 2)), (Some(1), Some(rows / 2 + 1)), (Some(rows / 2), Some(rows))] {
+        for target in [false, true] {
+            let m = |on: bool| if on { DecSet(vec![6]) } else { DecRst(vec![6]) };
+            for (save, restore) in [(Decsc, Decrc), (Scosc, Scorc), (DecSet(vec![1048]), DecRst(vec![1048])), (DecSet(vec![1049]), DecRst(vec![1049]))] {
+                v.push(c(Seq(vec![Decstbm(a, b), m(target), save.clone(), m(!target), restore.clone()])));
+                v.push(c(Seq(vec![m(target), save, Decstbm(a, b), m(!target), restore])));
+            }
+        }
+    }
     v
 }
 
